@@ -95,7 +95,7 @@ def main():
         sh("git -C /repo checkout -- .")
     rc, out = sh("git -C /repo status --short")
     assert out.strip() == "", out
-    dst = os.path.join(ROOT, "seeded", "%s-%s" % (pid, sn))
+    dst = os.path.join(ROOT, "seeded", "%s-%s%s" % (pid, os.environ.get("SEED_TAG", ""), sn))
     os.makedirs(dst, exist_ok=True)
     shutil.copy(patch, os.path.join(dst, "patch.diff"))
     for demo in ("demo.rs", "demo.sh"):
